@@ -13,6 +13,8 @@ verus! {
 #[derive(Clone, Copy, PartialEq, Eq, Debug)] pub struct Oid(pub [u8; 20]);
 #[derive(Clone, Copy, PartialEq, Eq, Debug)] pub struct Did(pub PublicKey);
 impl From<PublicKey> for Did { fn from(k: PublicKey) -> (r: Did) ensures r == Did(k) { Did(k) } }
+impl<'a> From<&'a PublicKey> for Did { fn from(k: &'a PublicKey) -> (r: Did) ensures r == Did(*k) { Did(*k) } }
+impl<'a> vstd::std_specs::convert::FromSpecImpl<&'a PublicKey> for Did { open spec fn obeys_from_spec() -> bool { true } open spec fn from_spec(k: &'a PublicKey) -> Did { Did(*k) } }
 impl vstd::std_specs::convert::FromSpecImpl<PublicKey> for Did { open spec fn obeys_from_spec() -> bool { true } open spec fn from_spec(k: PublicKey) -> Did { Did(k) } }
 /// ASSUMED (derive(Ord) on a byte-array newtype): lawful order, so BTreeSet/BTreeMap are mathematical sets/maps
 #[verifier::external_body]
@@ -171,11 +173,26 @@ pub mod sigrefs {
 /// stand-in for the iterator chain building the (non-blocked) delegate key set from the anchor document
 #[verifier::external_body]
 pub fn vx_delegate_keys<S>(anchor: &Doc, handle: &Handle<S>) -> BTreeSet<PublicKey> { unimplemented!() }
-/// stand-in for `handle.repository().remote_ids()...collect()`: delegates that already have valid refs locally
+/// stand-in for `handle.repository().remote_ids().map_err(..)?.filter_map(|id| id.ok())`: the namespaces present locally, as a
+/// stand-in iterator (the ghost collection of keys it may yield); `filter` and `collect` by their defining contracts
 #[verifier::external_body]
-pub fn vx_local_valid_delegates<S>(handle: &Handle<S>, delegates: &BTreeSet<PublicKey>) -> (r: Result<BTreeSet<PublicKey>, error::Protocol>)
-    ensures r is Ok ==> r->Ok_0@.subset_of(delegates@)
-{ unimplemented!() }
+pub struct VxKeys { _p: std::marker::PhantomData<PublicKey> }
+impl VxKeys {
+    pub uninterp spec fn has(self, x: PublicKey) -> bool;
+    /// ASSUMED (Iterator::filter): yields only items for which the predicate returned true
+    #[verifier::external_body]
+    pub fn filter<F: Fn(&PublicKey) -> bool>(self, f: F) -> (r: VxKeys)
+        requires forall|x: PublicKey| #[trigger] self.has(x) ==> f.requires((&x,))
+        ensures forall|x: PublicKey| #[trigger] r.has(x) ==> self.has(x) && f.ensures((&x,), true)
+    { unimplemented!() }
+    /// ASSUMED (Iterator::collect into a BTreeSet): exactly the items yielded
+    #[verifier::external_body]
+    pub fn collect<B: VxCollect>(self) -> (r: B) ensures forall|x: PublicKey| #[trigger] r.keys().contains(x) ==> self.has(x) { unimplemented!() }
+}
+pub trait VxCollect { spec fn keys(&self) -> Set<PublicKey>; }
+impl VxCollect for BTreeSet<PublicKey> { open spec fn keys(&self) -> Set<PublicKey> { self@ } }
+#[verifier::external_body]
+pub fn vx_local_remote_ids<S>(handle: &Handle<S>) -> Result<VxKeys, error::Protocol> { unimplemented!() }
 pub enum FetchResult {
     Success { applied: Applied, remotes: BTreeSet<PublicKey>, validations: Validations },
     Failed { threshold: usize, delegates: BTreeSet<PublicKey>, validations: Validations },
@@ -240,12 +257,16 @@ pub enum FetchResult {
 //@      nloops 1
 //@      body_sub Instant::now\(\) => Instant::now()
 //@      body_sub (?s)anchor\s*\.delegates\(\)\s*\.iter\(\)\s*\.filter\(\|id\| !handle\.is_blocked\(id\)\)\s*\.map\(\|did\| PublicKey::from\(\*did\)\)\s*\.collect::<BTreeSet<_>>\(\) => vx_delegate_keys(&anchor, handle)
-//@      body_sub (?s)handle\s*\.repository\(\)\s*\.remote_ids\(\)\s*\.map_err\(error::Protocol::RemoteIds\)\?\s*\.filter_map\(\|id\| id\.ok\(\)\)\s*\.filter\(\|id\| delegates\.contains\(id\)\)\s*\.collect::<BTreeSet<_>>\(\) => vx_local_valid_delegates(handle, &delegates)?
+//@      # the iterator chain over the local namespaces: its source is a stand-in, the delegate filter keeps its text and gets its contract in place
+//@      body_sub (?s)handle\s*\.repository\(\)\s*\.remote_ids\(\)\s*\.map_err\(error::Protocol::RemoteIds\)\?\s*\.filter_map\(\|id\| id\.ok\(\)\) => vx_local_remote_ids(handle)?
+//@      body_sub? \.filter\(\|id\| delegates\.contains\(id\)\) => .filter(|id: &PublicKey| -> (b: bool) ensures b == delegates@.contains(*id) { delegates.contains(id) })
 //@      body_sub sigrefs::DelegateStatus::empty\(\*remote, &delegates\)\s*\.load\(&self\.as_cached\(handle\)\)\? => sigrefs::vx_load_status(sigrefs::DelegateStatus::empty(*remote, &delegates), &self.as_cached(handle), &mut vx_bad)?
 //@      body_sub (?s)sigrefs::validate\(&cache, sigrefs\)\?\.unwrap_or\(Validations::default\(\)\) => sigrefs::vx_validate_or_default(&cache, sigrefs, &mut vx_bad)?
 //@      body_sub (?s)repository::update\(\s*&handle\.repo,\s*self\.tips\s*\.clone\(\)\s*\.into_values\(\)\s*\.flat_map\(\|ups\| ups\.into_iter\(\)\),\s*\) => vx_update(&handle.repo, &self.tips, Ghost(valid_delegates@), Ghost(anchor.thr()), Ghost(anchor.is_del(Did(handle.local_spec()))), Ghost(signed_refs.m@.dom()), Ghost(vx_bad@))
 //@      body_sub sigrefs::validate\(&cache, sigrefs\)\?\.as_mut\(\) => sigrefs::vx_validate(&cache, sigrefs, &mut vx_bad)?
 //@      body_sub failures\.append\(warns\); => { let mut warns = warns; failures.append(&mut warns); }
+//@      hint? 1 let mut failed_delegates = BTreeSet::new\(\);
+//@        assert forall|x: PublicKey| valid_delegates@.contains(x) implies delegates@.contains(x) by { assert(valid_delegates.keys().contains(x)); }
 //@      loop 1
 //@        invariant
 //@          __vx_it1.rr == &signed_refs
